@@ -282,6 +282,51 @@ class Gen:
         return dict(name=name, cfg=cfg, events=evs, profile=profile)
 
 
+def windowed(rng, sched):
+    """Turns a phase-contiguous schedule into one with overtaking: some put_or_update calls stop at the schedule point
+    between their two halves and are resumed a few events later; some worker steps stop between the store insert and the
+    index registration of a put with time-to-live and are resumed a few events later. No shutdown inside a schedule."""
+    evs = [e for e in sched["events"] if not e.endswith(" shutdown")]
+    out = []
+    resume = []          # (events left, event to emit)
+    worker_open = False
+    stepping = set()
+    for e in evs:
+        p = e.split()
+        emit = e
+        if p[0] == "call" and p[2] == "upsert" and p[1] not in stepping and rng.random() < 0.5:
+            emit = "callp " + " ".join(p[1:])
+            stepping.add(p[1])
+            resume.append([rng.choice([0, 1, 1, 2, 3, 5]), "run " + p[1], p[1]])
+        elif p[0] == "worker" and not worker_open and rng.random() < 0.4:
+            emit = "workerp"
+            worker_open = True
+            resume.append([rng.choice([0, 1, 1, 2, 3]), "runw", None])
+        out.append(emit)
+        for item in list(resume):
+            if item[0] <= 0:
+                out.append(item[1])
+                resume.remove(item)
+                if item[2] is None:
+                    worker_open = False
+                else:
+                    stepping.discard(item[2])
+            else:
+                item[0] -= 1
+    for item in resume:
+        out.append(item[1])
+    return dict(sched, events=out, name="w_" + sched["name"], profile="window")
+
+
+def generate_window(seed, count, profiles=("ttl", "general", "ttlchain", "upsertpipe")):
+    g = Gen(seed)
+    out = []
+    for i in range(count):
+        profile = profiles[i % len(profiles)]
+        out.append(windowed(g.rng, g.schedule("s%d_%s_%d" % (seed, profile, i), profile)))
+    return out
+
+
 def generate(seed, count, profiles):
     g = Gen(seed)
     out = []
